@@ -312,6 +312,25 @@ fn o_name(kind: usize, s: &[u32]) -> bool {
 		_ => true,
 	}
 }
+/// what get_arguments_size reads on ANY string (it does not validate): `(`, then tokens up to the first `)` at token position —
+/// `D` / `J` count 2; anything else is: any number of `[`, one character, and when that is `L` everything up to the next `;`,
+/// counting 1 — on top of 1 for `this`; None when the text ends inside that or the sum exceeds 255
+fn o_args_lenient(s: &[u32]) -> Option<u8> {
+	if s.first() != Some(&('(' as u32)) { return None; }
+	let (mut i, mut size) = (1usize, 1u32);
+	loop {
+		let c = *s.get(i)?;
+		if c == ')' as u32 { return Some(size as u8); }
+		if c == 'D' as u32 || c == 'J' as u32 { size += 2; i += 1; }
+		else {
+			while s.get(i) == Some(&('[' as u32)) { i += 1; }
+			let ch = *s.get(i)?; i += 1;
+			if ch == 'L' as u32 { loop { let c = *s.get(i)?; i += 1; if c == ';' as u32 { break; } } }
+			size += 1;
+		}
+		if size > 255 { return None; }
+	}
+}
 fn o_split(s: &[u32]) -> Option<(Vec<u32>, Vec<u32>)> {
 	let pos = s.iter().rposition(|&c| c == '$' as u32)?;
 	let (p, i) = (&s[..pos], &s[pos + 1..]);
@@ -327,7 +346,9 @@ struct St<'a> { r: &'a mut Report, probe: &'a ArgsProbe, emit_cases: bool,
 /// what one string produced: a bit mask of what accepted it (bits 0..6 names, 7 field, 8 return, 9 method, 10 split) and the
 /// values of the function-valued entry points (for the value sweeps)
 #[derive(Default)]
-struct Out { mask: u32, args: Option<u8>, dim: Option<u8>, simple: Option<Vec<u32>>, split: Option<(Vec<u32>, Vec<u32>)> }
+struct Out { mask: u32, args: Option<u8>, dim: Option<u8>, simple: Option<Vec<u32>>, split: Option<(Vec<u32>, Vec<u32>)>,
+	/// what get_inner_class_parent / get_inner_class_name themselves answered (the value tables of the sweeps list these, not the split's halves)
+	parent: Option<Vec<u32>>, inner: Option<Vec<u32>> }
 
 fn vio(r: &mut Report, what: String, s: &[u32]) {
 	r.violation(what.clone(), format!("property C18\nwhat: {what}\ninput (text): {}\ninput (code points): {}\n", show(s), gstr(s)));
@@ -441,6 +462,7 @@ fn through(st: &mut St, s: &[u32], stream: &str) -> Out {
 						if (gp.clone(), gi.clone()) != (got.as_ref().map(|x| x.0.clone()), got.as_ref().map(|x| x.1.clone())) {
 							vio(r, format!("get_inner_class_parent = {:?}, get_inner_class_name = {:?}, but split_inner_class_parent_and_name = {:?}", gp, gi, got), s);
 						}
+						out.parent = gp.clone(); out.inner = gi.clone();
 						if st.emit_cases && s.len() <= 12 { r.case(stream, format!("CInner {} {} {}", gstr(s), gopt(gp.map(|x| gstr(&x))), gopt(gi.map(|x| gstr(&x))))); }
 					}
 				}
@@ -485,6 +507,12 @@ fn through(st: &mut St, s: &[u32], stream: &str) -> Out {
 	}
 	// ArrClassNameSlice::dimension (on every string through the unchecked constructor; a panic is the answer `Err`)
 	out.dim = impl_dimension(&js);
+	{
+		// through the unchecked constructor on ANY string: the number of leading `[` (as u8), the assertion fails on 0
+		let lead = s.iter().take_while(|&&c| c == '[' as u32).count();
+		let want = if lead % 256 == 0 { None } else { Some((lead % 256) as u8) };
+		if out.dim != want { vio(r, format!("ArrClassNameSlice::dimension = {:?} (None = panic) on a string with {lead} leading `[`: expected {:?} (the count as u8; the assertion `dimension != 0` fails on 0)", out.dim, want), s); }
+	}
 	if valid_arr {
 		let lead = s.iter().take_while(|&&c| c == '[' as u32).count();
 		if out.dim.map(|d| d as usize) != Some(lead) { vio(r, format!("ArrClassNameSlice::dimension = {:?} on a valid array class name with {lead} leading `[`", out.dim), s); }
@@ -500,6 +528,9 @@ fn through(st: &mut St, s: &[u32], stream: &str) -> Out {
 					if got != want { vio(r, format!("get_arguments_size = {:?} on a valid method descriptor whose arguments take {n} slots (with `this`); expected {:?} (an error above 255)", got, want), s); }
 				}
 				if got == Some(0) { vio(r, "get_arguments_size = 0 (the implicit `this` alone counts 1)".into(), s); }
+				// on every string (it does not validate): what its documentation and token structure give
+				let want = o_args_lenient(s);
+				if got != want { vio(r, format!("get_arguments_size = {:?}; reading `(`, then per parameter `D`/`J` (2 slots) or `[`* and one character, an `L` running to the next `;` (1 slot), up to `)`, on top of 1 for `this`, gives {:?} (None = error: text ends early or more than 255 slots)", got, want), s); }
 				c_args = Some(gres(got.map(|d| d.to_string())));
 				out.args = got;
 			}
@@ -511,6 +542,11 @@ fn through(st: &mut St, s: &[u32], stream: &str) -> Out {
 			Err(p) => vio(r, format!("ClassNameSlice::is_array/as_arr/as_obj/as_arr_and_obj or ClassName::into_arr/into_obj panicked: {p}"), s),
 			Ok((is_arr, a, o, agree)) => {
 				if !agree { vio(r, "as_arr_and_obj, as_arr/as_obj and into_arr/into_obj disagree with each other".into(), s); }
+				// "Array class names start with `[`": on every string the array view exists exactly then, the object view otherwise
+				let starts = s.first() == Some(&('[' as u32));
+				if is_arr != starts || a.is_some() != starts || o.is_some() == starts {
+					vio(r, format!("ClassNameSlice::is_array = {is_arr}, as_arr is {}, as_obj is {} on a string that {} with `[`", if a.is_some() { "Some" } else { "None" }, if o.is_some() { "Some" } else { "None" }, if starts { "starts" } else { "does not start" }), s);
+				}
 				if valid_class {
 					let want_a = if valid_arr { Some(s.to_vec()) } else { None };
 					let want_o = if valid_obj { Some(s.to_vec()) } else { None };
@@ -567,8 +603,11 @@ fn through(st: &mut St, s: &[u32], stream: &str) -> Out {
 		}
 		// the rest of the generated API behaves as the wrapped string
 		let other = { let mut o = s.to_vec(); if o.len() % 2 == 0 { o.push('x' as u32); } else { o.pop(); } jstring(&o) };
+		// ... and one that is shorter but greater (or longer but smaller) in code point order, and one differing only in the last place
+		let other2 = { let mut o = s.to_vec(); match o.first().copied() { Some(c) if c > 0x21 => { o[0] = c - 1; o.push('z' as u32); o.push('z' as u32); } Some(c) => { o.truncate(1); o[0] = c + 1; } None => o.push(0x10400) } jstring(&o) };
+		let other3 = { let mut o = s.to_vec(); match o.last().copied() { Some(c) if c != 'a' as u32 => { let n = o.len(); o[n - 1] = 'a' as u32; } Some(_) => { let n = o.len(); o[n - 1] = 'B' as u32; } None => o.push(' ' as u32) } jstring(&o) };
 		for &(k, kname) in KINDS.iter() {
-			for oth in [&js, &other] {
+			for oth in [&js, &other, &other2, &other3] {
 				match impl_newtype_api(k, &js, oth) {
 					Err(p) => vio(r, format!("{kname}: a generated trait impl panicked: {p}"), s),
 					Ok(bad) => if !bad.is_empty() { vio(r, format!("{kname}: generated impls that do not behave as the wrapped string: {:?}", bad), s); },
@@ -699,7 +738,8 @@ impl SweepAcc {
 		if with_args { if let Some(n) = o.args { self.args.push((s.to_vec(), n)); } }
 		if let Some(d) = o.dim { self.dims.push((s.to_vec(), d)); }
 		if let Some(x) = &o.simple { self.simple.push((s.to_vec(), x.clone())); }
-		if let Some((p, i)) = &o.split { self.parent.push((s.to_vec(), p.clone())); self.inner.push((s.to_vec(), i.clone())); }
+		if let Some(p) = &o.parent { self.parent.push((s.to_vec(), p.clone())); }
+		if let Some(i) = &o.inner { self.inner.push((s.to_vec(), i.clone())); }
 	}
 	/// the Coq cases: accepted sets of the 11 predicates/parsers and the value tables; `args_len` = None when get_arguments_size was not swept
 	fn cases(&self, pre: &[u32], suf: &[u32], alpha: &[u32], len: usize, with_args: bool) -> Vec<String> {
